@@ -12,8 +12,10 @@ from .values import Sym, INT, STR
 from .witness import concretize
 
 
-def sample(env, c, n, seed):
-    """up to n witnesses (dicts) for contract c; [] when inputs cannot be built"""
+def sample(env, c, n, seed, defer=False):
+    """up to n witnesses (dicts) for contract c; [] when inputs cannot be built.
+    defer=True (second attempt, used when the symbolic run of a constructor is outside the engine): parameters of a
+    constructor-built sort are not built symbolically; the witness says how to call the REAL constructor natively."""
     fi = env.repo.find(c.target)
     env.current = c
     env.unroll = c.unroll
@@ -24,14 +26,23 @@ def sample(env, c, n, seed):
     loc = {}
     pre = Frame(fi, fi.module, loc, cls=fi.cls)
     I._top_frame = pre
+    deferred = {}
     try:
         for name, srt in c.params.items():
+            if defer and isinstance(srt, sorts.Rec) and srt.init is not None:
+                kw = {}
+                for k, s2 in srt.init.items():
+                    kw[k] = ('expr', s2.src) if isinstance(s2, sorts.Expr) else ('value', sorts.build(I, s2, f'{name}_{k}'))
+                deferred[name] = (srt.ident, kw)
+                continue
             loc[name] = I.eval_src(srt.src, pre) if isinstance(srt, sorts.Expr) else sorts.build(I, srt, name)
         if c.setup is not None:
             c.setup(I, loc)
         for src in c.requires:
             p.assume(I.formula_src(src, pre))
     except (Unsupported, PyExc, PathEnd) as e:
+        if not defer and any(isinstance(s2, sorts.Rec) and s2.init is not None for s2 in c.params.values()):
+            return sample(env, c, n, seed, defer=True)
         return [], f'inputs not built: {e}'
     except Exception as e:      # noqa
         return [], f'inputs not built: {type(e).__name__}: {e}'
@@ -89,6 +100,9 @@ def sample(env, c, n, seed):
         m = s.model()
         try:
             w = {name: concretize(m, v) for name, v in inputs.items()}
+            for name, (ident, kw) in deferred.items():
+                w[name] = {'__construct__': ident,
+                           'kwargs': {k: ({'__expr__': v} if how == 'expr' else concretize(m, snapshot(v))) for k, (how, v) in kw.items()}}
         except Exception as e:      # noqa
             return out, f'witness not built: {type(e).__name__}: {e}'
         if getattr(c, 'repair_strings', False):
